@@ -21,29 +21,44 @@ open TdModel
 theorem constants_are_spec :
     Facts.C41.lookaheadNs = 300 * 1000000000 ∧ Facts.C41.codeIncorrectServerSalt = 48 := by decide
 
-/-- The modelled code is the code in the source. -/
-theorem code_is_modelled :
-    Facts.C41.updateSaltBody =
-      "salt, ok := c.salts.Get(c.clock.Now().Add(time.Minute * 5)) ; if !ok { return } ; c.storeSalt(salt)" ∧
-    Facts.C41.storeBody =
-      "s.saltsMux.Lock() ; defer s.saltsMux.Unlock() ; s.salts = append(s.salts, salts...) ; n := 0 ; dedup := make(map[int64]struct{}, len(s.salts)+1) ; for _, salt := range s.salts { if _, ok := dedup[salt.Salt]; !ok { dedup[salt.Salt] = struct{}{} s.salts[n] = salt n++ } } ; s.salts = s.salts[:n] ; sort.Sort(saltSlice(s.salts))" ∧
-    Facts.C41.getBody =
-      "s.saltsMux.Lock() ; defer s.saltsMux.Unlock() ; check: if len(s.salts) < 1 { return 0, false } ; date := int(deadline.Unix()) ; if salt := s.salts[len(s.salts)-1]; salt.ValidUntil > date { return salt.Salt, true } ; n := 0 ; for _, salt := range s.salts { if salt.ValidUntil > date { s.salts[n] = salt n++ } } ; s.salts = s.salts[:n] ; goto check" ∧
-    Facts.C41.resetBody = "s.saltsMux.Lock() ; s.salts = s.salts[:0] ; s.saltsMux.Unlock()" ∧
-    Facts.C41.lessBody = "return s[i].ValidUntil > s[j].ValidUntil" :=
-  ⟨rfl, rfl, rfl, rfl, rfl⟩
+/-- Structure of the salt store as read from the source with go/ast (operands of comparisons in
+either order, logging and comments ignored): `Get` examines the last element of a slice that
+`Less` keeps sorted by descending expiry, returns it iff its validity ends strictly after the
+deadline, otherwise filters with the same test and looks again; `Store` appends, keeps the first
+occurrence of every salt value, sorts; `Reset` empties; `updateSalt` stores only a salt that
+`Get` found.  The operators are *interpreted* by the model (`validAfter`, `keptByFilter`). -/
+theorem store_structure_is_sound :
+    Facts.C41.getLooksAtLast = true ∧ Facts.C41.lessDescending = true ∧
+    Facts.C41.getValidStrict = true ∧ Facts.C41.getFilterStrict = true ∧ Facts.C41.getStructure = true ∧
+    Facts.C41.storeAppendDedupSort = true ∧ Facts.C41.resetEmpties = true ∧
+    Facts.C41.updateSaltStoresWhenFound = true := by decide
 
 /-- Every outgoing message takes its salt from `c.session()`, which runs `updateSalt` first; the
-bad-salt branch of `Invoke` stores the new salt, forgets the future salts and calls `rpc.Do` once
-more, returning its result; `handleBadMsg` forwards the server's new salt. -/
-theorem write_path_is_modelled :
-    Facts.C41.sessionFirstStmt = "c.updateSalt()" ∧
-    Facts.C41.newEncryptedMessageFirstStmt = "s := c.session()" ∧
-    Facts.C41.encryptedDataLiterals = 3 ∧ Facts.C41.encryptedDataLiteralsWithSessionSalt = 3 ∧
-    Facts.C41.invokeBadSaltBranch =
-      "if errors.As(err, &badMsgErr) && badMsgErr.Code == codeIncorrectServerSalt { c.storeSalt(badMsgErr.NewSalt) ; c.salts.Reset() ; return c.rpc.Do(ctx, req) }" ∧
-    Facts.C41.badServerSaltNotifies = 1 :=
-  ⟨rfl, rfl, rfl, rfl, rfl, rfl⟩
+bad-salt branch of `Invoke` (taken iff the error is a bad-message error with code 48) stores the
+server's salt, forgets the future salts — in either order — and calls `rpc.Do` once more,
+returning its result; `handleBadMsg` forwards the server's new salt. -/
+theorem write_path_is_sound :
+    Facts.C41.sessionUpdatesSaltFirst = true ∧ Facts.C41.newEncryptedMessageReadsSession = true ∧
+    Facts.C41.encryptedDataLiterals = Facts.C41.encryptedDataLiteralsWithSessionSalt ∧
+    0 < Facts.C41.encryptedDataLiterals ∧
+    (Facts.C41.invokeBadSaltOps = [1, 2, 3] ∨ Facts.C41.invokeBadSaltOps = [2, 1, 3]) ∧
+    Facts.C41.invokeBadSaltCond = true ∧ Facts.C41.badServerSaltNotifies = 1 := by decide
+
+/-- The interpreted `Invoke` is the canonical one for both sound orders of the branch. -/
+theorem invoke_branch_order_irrelevant (ops : List Nat) (h : ops = [1, 2, 3] ∨ ops = [2, 1, 3])
+    (c : Conn) (now : Int) (rs : List Reaction) : invokeW ops c now rs = invokeCanon c now rs :=
+  invokeW_good ops h c now rs
+
+/-- Without forgetting the future salts (seeded change C41-1: ops `[1, 3]`) the retransmission can
+carry a stale stored salt instead of the server's new one. -/
+theorem invoke_without_reset_counterexample :
+    (invokeW [1, 3] { cur := 7, salts := [⟨0, 2000, 11⟩] } 0 [.badMsg 48 555, .result]).2.1 = [11, 11] := by decide
+
+/-- The refresh loop waits for the session, fetches at once, then on every tick of the fetch
+interval (default 1 h), asking for `defaultSaltsNum` = 4 salts. -/
+theorem refresh_loop_is_modelled :
+    Facts.C41.saltLoopStructure = true ∧ Facts.C41.getSaltsAsksDefaultNum = true ∧
+    Facts.C41.defaultSaltsNum = 4 ∧ Facts.C41.defaultSaltFetchIntervalNs = 3600 * 1000000000 := by decide
 
 /-! ### the salt store -/
 
@@ -197,7 +212,8 @@ theorem salts_stay_sorted (evs : List Event) : ∀ (c : Conn) (now : Int), Sorte
     | write => exact hattach c now h
     | invoke rs =>
       simp only [step]
-      unfold invoke
+      rw [invoke_eq_canon]
+      unfold invokeCanon
       have h1 := hattach c now h
       cases rs with
       | nil => exact h1
@@ -225,7 +241,8 @@ theorem badsalt_resend_once (c : Conn) (nowNs : Int) (rs : List Reaction) :
     (∀ ns rest, rs = .badMsg 48 ns :: rest → (invoke c nowNs rs).2.1[1]? = some ns) := by
   have hsecond : ∀ (c1 : Conn) (ns : Int), (attach { cur := ns, salts := reset c1.salts } nowNs).2 = ns := by
     intro c1 ns; simp [attach, updateSalt, reset, get]
-  unfold invoke
+  rw [invoke_eq_canon]
+  unfold invokeCanon
   cases rs with
   | nil => simp
   | cons r rest =>
